@@ -42,7 +42,9 @@ CLAIMED['C04'] = dict(category='proof',
         'inputs. Inter-assembly gap: the flowing-gap update of the real Core._flow_model on the topology of loaded cores '
         'is exactly a combination with off-diagonal weights >= 0 and self weight 1 - dz S_i, and S_i x (the candidate '
         'limit core.calculate_min_dz hands to min() for cell i) <= 1 at both temperatures; the no-flow and duct-average '
-        'models return convex combinations of the adjacent duct-wall (and neighbouring gap) temperatures.',
+        'models return convex combinations of the adjacent duct-wall (and neighbouring gap) temperatures. The bundle- and '
+        'assembly-level calculate_min_dz return the minimum of the interior and bypass limits at both temperatures and of '
+        'all axial regions (<= each, equal to one of them) and restore the coolant state.',
    note=_ASSUME + 'Enumerated ring counts 2,3,4 cover every neighbour class the code distinguishes (7-pin special cases, '
         '19-pin, >19-pin); constant properties within a step. Not decided: the limit for temperature-dependent coolants '
         'is evaluated at the two end temperatures only.',
